@@ -14,8 +14,8 @@ Model of `Computable` / `Computed` (mesa_signal.py) on top of the Signals regist
   assignment clears it);
 * the mutually recursive calls (read → notify → set_dirty → notify …, read → read) go through
   one fuel-indexed function `exec`; `none` = out of fuel (Python: RecursionError / no termination).
-The notification loop iterates over a snapshot of the subscriber list and overwrites the entry
-afterwards, as `_mesa_notify` does.
+The notification loop iterates over a snapshot of the subscriber list, skips what has been unsubscribed
+meanwhile and prunes the dead references of the current list afterwards, as `_mesa_notify` does (G13 repaired).
 -/
 namespace Mesa.Computed
 open Mesa.Signals
@@ -186,12 +186,13 @@ def readAll (rec : Rec) : List Nat → St → Option (St × R)
     | some (s1, .err e) => some (s1, .err e)
     | some (s1, .ok _) => readAll rec cs s1
 
-/-- `_mesa_notify`: call the live observers of the snapshot in order, collect the live ones -/
-def notifyLoop (rec : Rec) (k : Key) (old new : Option Int) :
-    List Sub → List Sub → St → Option (St × Except Err (List Sub))
-  | [], act, s => some (s, .ok act)
-  | x :: xs, act, s =>
-    if !s.alive x then notifyLoop rec k old new xs act s
+/-- `_mesa_notify` (G13 repaired): the observers the signal had when it was emitted, in order; one that has died is
+    skipped, and so is one that is no longer in the list as it is now (what a handler called before — here: the
+    re-evaluation of a Computed, `_remove_parents` — has unsubscribed meanwhile) -/
+def notifyLoop (rec : Rec) (k : Key) (old new : Option Int) : List Sub → St → Option (St × Except Err Unit)
+  | [], s => some (s, .ok ())
+  | x :: xs, s =>
+    if !s.alive x || !(((s.regs k.1).subs k.2 .change).contains x) then notifyLoop rec k old new xs s
     else
       match x with
       | .dirty c =>
@@ -199,26 +200,28 @@ def notifyLoop (rec : Rec) (k : Key) (old new : Option Int) :
         match s.comps c with
         | none => some (s, .error .attr)
         | some cx =>
-          if cx.dirty then notifyLoop rec k old new xs (act ++ [x]) s
+          if cx.dirty then notifyLoop rec k old new xs s
           else
             match rec (.notify (cx.owner, cx.name) cx.value none) (s.setComp c { cx with dirty := true }) with
             | none => none
             | some (s1, .err e) => some (s1, .error e)
-            | some (s1, .ok _) => notifyLoop rec k old new xs (act ++ [x]) s1
+            | some (s1, .ok _) => notifyLoop rec k old new xs s1
       | .user h =>
         -- a user handler: records the signal, then reads the Computables of its program
         let s0 := { s with log := s.log ++ [⟨h, k.1, k.2, old, new⟩] }
         match readAll rec (s.progs h) s0 with
         | none => none
         | some (s1, .err e) => some (s1, .error e)
-        | some (s1, .ok _) => notifyLoop rec k old new xs (act ++ [x]) s1
+        | some (s1, .ok _) => notifyLoop rec k old new xs s1
 
-/-- `HasObservables.notify` + `_mesa_notify` for the `change` signal of key `k` -/
+/-- `HasObservables.notify` + `_mesa_notify` for the `change` signal of key `k`: afterwards the dead references are
+    dropped from the list as it is then -/
 def notifyT (rec : Rec) (k : Key) (old new : Option Int) (s : St) : Option (St × R) :=
-  match notifyLoop rec k old new ((s.regs k.1).subs k.2 .change) [] s with
+  match notifyLoop rec k old new ((s.regs k.1).subs k.2 .change) s with
   | none => none
   | some (s1, .error e) => some (s1, .err e)
-  | some (s1, .ok act) => some (s1.setReg k.1 ((s1.regs k.1).setSubs k.2 .change act), .ok 0)
+  | some (s1, .ok _) =>
+    some (s1.setReg k.1 ((s1.regs k.1).setSubs k.2 .change (((s1.regs k.1).subs k.2 .change).filter s1.alive)), .ok 0)
 
 /-- `Observable.__set__`: cycle check, notify, store (G10 repaired: PROCESSING_SIGNALS is left alone) -/
 def assignT (rec : Rec) (k : Key) (v : Int) (s : St) : Option (St × R) :=
